@@ -28,26 +28,39 @@
   (the spec's verdict is `tsigReached`, C10's domain):
   * `C08_after_verified_tsig` — if octets remain after the TSIG record, or a QUERY has no question,
     the response is `finish` of the writer the TSIG step left with RCODE FORMERR set and nothing
-    else changed (`C08_tsig_trailing`, `C08_tsig_no_question`: the two causes).
-  Partial in one respect (`C08_full`): for those authenticated requests the statement is about the
-  writer *state* handed to `finish`, not about the octets of the TSIG-completed response (C10's /
-  C12's gap).  For all other requests the theorems are octet-exact.
+    else changed (`C08_tsig_trailing`, `C08_tsig_no_question`: the two causes);
+  * `C08_signed_response` — and on the octets: the response exists, has RCODE FORMERR, ANCOUNT =
+    NSCOUNT = 0, and after the question only the OPT record (iff reached) and the TSIG record, last
+    (`Proofs/FinishTsig`, `Proofs/ServerSigned`).
+  `theorem C08 : C08_full` — both halves.  As in C07, the TSIG record's owner is given as the key name
+  literally or as a literal prefix plus pointer (`NameShape`); decoding a compressed owner is C12/C13.
 -/
 import QV.Proofs.ServerProps
 import QV.Proofs.ScanTsigCont
+import QV.Proofs.ServerSigned
 
 namespace QV.C08
 open QV QV.Spec.Server QV.ServerScan
 
-/-- C08 at full strength: also for the continuation after a verified TSIG -/
+/-- C08 at full strength: the first problem in message order is a format error ⇒ FORMERR, no data —
+    for unsigned requests, and for TSIG-signed requests that the TSIG step authenticates (the problem
+    then lies after the TSIG record: trailing octets, or a QUERY without question) -/
 def C08_full : Prop :=
   ∀ (cfg : Server.Cfg) (tr : Server.Transport) (now bufLen : Nat) (req : Bytes),
     minBuf tr cfg.payload ≤ bufLen → 512 ≤ cfg.payload → req.size ≤ Rdata.USIZE_MAX →
-    -- `firstProblem` = the spec's scan, with a verified TSIG treated as "go on"
     (specScanWith (catKind cfg) cfg.payload req).respond = true →
-    (specScanWith (catKind cfg) cfg.payload req).verdict = .formErr →
-    ∃ b, Server.handleMessage cfg tr now bufLen req = .ok (some b) ∧ hdr b 2 % 16 = 1 ∧
-      hdr b 6 = 0 ∧ hdr b 8 = 0
+    ((specScanWith (catKind cfg) cfg.payload req).verdict = .formErr →
+      ∃ b, Server.handleMessage cfg tr now bufLen req = .ok (some b) ∧ hdr b 2 % 16 = 1 ∧
+        hdr b 6 = 0 ∧ hdr b 8 = 0) ∧
+    -- signed requests (well-formed configuration, clock below 2^48 s: C01's hypotheses)
+    (ServerSafety.CfgWF cfg → now < 2^48 →
+      (specScanWith (catKind cfg) cfg.payload req).verdict = .tsigReached →
+      ∃ (t : Tsig.ReadTsigRr) (mw : Bytes) (r' : Reader.Reader), r'.octets = req ∧ r'.cursor ≤ req.size ∧
+        ∀ r'' S, Server.tsigAfter cfg now t mw r' (preTsigState cfg tr bufLen req) = (.ok (some r''), S) →
+          endVerdict (catKind cfg) req.size (specScanWith (catKind cfg) cfg.payload req).question
+            r'.cursor ((req.getD 2 0).toNat / 8 % 16) = .formErr →
+          ∃ b, Server.handleMessage cfg tr now bufLen req = .ok (some b) ∧
+            SignedNoData cfg.payload (specScanWith (catKind cfg) cfg.payload req) 1 b)
 
 /-- **Theorem.** If the first problem in message order is a format error, the response is FORMERR:
     RCODE 1 with the extended bits clear, no answer, no authority, nothing after the question but
@@ -177,6 +190,32 @@ theorem C08_after_verified_tsig (cfg : Server.Cfg) (tr : Server.Transport) (now 
   have := h3 r'' S hT (by rw [hev]; simp)
   rw [this, hev]
   rfl
+
+/-- **Theorem (signed requests, on the octets).** If the TSIG step authenticates the request and
+    the end-of-message check or the missing question makes the verdict FORMERR, the server responds
+    with RCODE FORMERR, no answer or authority records, and after the question only the OPT record
+    (iff the scan reached one) and the TSIG record, which is last. -/
+theorem C08_signed_response (cfg : Server.Cfg) (hcfg : ServerSafety.CfgWF cfg) (tr : Server.Transport)
+    (now bufLen : Nat) (req : Bytes)
+    (hbuf : minBuf tr cfg.payload ≤ bufLen) (hpay : 512 ≤ cfg.payload) (hreq : req.size ≤ Rdata.USIZE_MAX)
+    (hnow : now < 2^48)
+    (hr : (specScanWith (catKind cfg) cfg.payload req).respond = true)
+    (hv : (specScanWith (catKind cfg) cfg.payload req).verdict = .tsigReached) :
+    ∃ (t : Tsig.ReadTsigRr) (mw : Bytes) (r' : Reader.Reader), r'.octets = req ∧ r'.cursor ≤ req.size ∧
+      ∀ r'' S, Server.tsigAfter cfg now t mw r' (preTsigState cfg tr bufLen req) = (.ok (some r''), S) →
+        endVerdict (catKind cfg) req.size (specScanWith (catKind cfg) cfg.payload req).question
+          r'.cursor ((req.getD 2 0).toNat / 8 % 16) = .formErr →
+        ∃ b, Server.handleMessage cfg tr now bufLen req = .ok (some b) ∧
+          SignedNoData cfg.payload (specScanWith (catKind cfg) cfg.payload req) 1 b := by
+  obtain ⟨t, mw, r', h1, h2, h3⟩ := signed_noData_full cfg hcfg tr now bufLen req hbuf hpay hreq hnow hr hv
+  exact ⟨t, mw, r', h1, h2, fun r'' S hT hev => h3 r'' S hT .formErr (Or.inl rfl) hev⟩
+
+/-- **C08 holds at full strength.** -/
+theorem C08 : C08_full := by
+  intro cfg tr now bufLen req hbuf hpay hreq hr
+  refine ⟨fun hv => ?_, fun hcfg hnow hv => C08_signed_response cfg hcfg tr now bufLen req hbuf hpay hreq hnow hr hv⟩
+  obtain ⟨b, hb, _, h1, h2, h3, _⟩ := C08_formerr_response cfg tr now bufLen req hbuf hpay hreq hr hv
+  exact ⟨b, hb, h1, h2, h3⟩
 
 /-! ### non-vacuity: each cause on a concrete request -/
 
